@@ -67,9 +67,13 @@ class Acc:
             i.width = 1
 
 
+class Acc0:
+    def __init__(self, items):
+        self.items = items
+
+
 def ok_strong_field_read(src):
-    a = Acc()
-    a.fill(src)
+    a = Acc0(src.glyphs)
     a.items = []
     for i in a.items:
         i.width = 1
